@@ -4,7 +4,13 @@
 #include <memory>
 #include <functional>
 #include <stdexcept>
+#include <vector>
+#include <deque>
+#include <algorithm>
+#include <cstddef>
 namespace st {
+struct const_buffer { char const* p; std::size_t n; };
+struct chunk { char* data() { return d; } int size() const { return 16; } char d[16]; };
 struct fwd { void* destination() { return nullptr; } };
 struct pkt { std::function<void(int)> drop_fun; };
 
@@ -49,6 +55,28 @@ struct sched {
 	char m_src[64]; char m_dst[64];
 	void bad_copy_same_source(int const* lens, int n) { int done = 0; for (int i = 0; i < n; ++i) { __builtin_memcpy(m_dst + done, m_src, lens[i]); done += lens[i]; } }
 	void good_copy_offset(int const* lens, int n) { int done = 0; for (int i = 0; i < n; ++i) { __builtin_memcpy(m_dst + done, m_src + done, lens[i]); done += lens[i]; } }
+
+	// cursor/offset pairs (reaching events): the offset is re-assigned whenever the cursor is stepped
+	std::vector<chunk> m_chunks;
+	void bad_offset_not_reset(char const* src, int n) { auto it = m_chunks.begin(); int off = 0; while (n > 0 && it != m_chunks.end()) { int c = std::min(n, it->size() - off); __builtin_memcpy(it->data() + off, src, c); src += c; n -= c; off += c; if (off == it->size()) ++it; } }
+	void good_offset_reset(char const* src, int n) { auto it = m_chunks.begin(); int off = 0; while (n > 0 && it != m_chunks.end()) { int c = std::min(n, it->size() - off); __builtin_memcpy(it->data() + off, src, c); src += c; n -= c; off += c; if (off == it->size()) { ++it; off = 0; } } }
+	// sorted-range algorithms need a sorted range
+	std::vector<int> m_ids;
+	bool bad_binary_search_unsorted(int x) { return std::binary_search(m_ids.begin(), m_ids.end(), x); }
+	bool good_binary_search_sorted(int x) { std::vector<int> v(m_ids); std::sort(v.begin(), v.end()); return std::binary_search(v.begin(), v.end(), x); }
+	bool good_linear_count(int x) { return std::count(m_ids.begin(), m_ids.end(), x) != 0; }
+	// signed difference converted to unsigned in a bound
+	int bad_unsigned_bound(char const* h, int hs, int ns) { int k = 0; for (std::size_t i = 0; i < std::size_t(hs - ns + 1); ++i) k += h[i]; return k; }
+	int good_signed_bound(char const* h, int hs, int ns) { int k = 0; for (int i = 0; i < hs - ns + 1; ++i) k += h[i]; return k; }
+	int good_guarded_bound(char const* h, int hs, int ns) { int k = 0; if (hs >= ns) { for (std::size_t i = 0; i < std::size_t(hs - ns); ++i) k += h[i]; } return k; }
+	// element-wise front insertion in forward iteration reverses
+	std::deque<int> m_hops;
+	void bad_reverse_prepend(std::deque<int> const& r) { for (auto const& h : r) m_hops.push_front(h); }
+	void good_append_loop(std::deque<int> const& r) { for (auto const& h : r) m_hops.push_back(h); }
+	void good_range_prepend(std::deque<int> const& r) { m_hops.insert(m_hops.begin(), r.begin(), r.end()); }
+	// a deferred closure capturing a view of a shared buffer
+	void bad_view_capture(pkt& p) { const_buffer b{m_src, 8}; p.drop_fun = [b](int) { (void)b.p[0]; }; }
+	void good_copy_capture(pkt& p) { std::vector<char> b(m_src, m_src + 8); p.drop_fun = [b](int) { (void)b[0]; }; }
 
 	[[noreturn]] void fail() { throw std::runtime_error("x"); }
 	int good_noreturn_exit(char const* s) { if (s == nullptr) { fail(); } return *s; }
